@@ -807,6 +807,13 @@ func TestVerifC07Lab(t *testing.T) {
 		})
 	}
 
+	// ------------------------------------------------- glue on the machine's own addresses
+	localN := n / 6
+	if localN < 10 {
+		localN = 10
+	}
+	vC07LabLocal(l, r, localN, scratch, emit)
+
 	// ------------------------------------------------------- cached descent, live
 	for rep := 0; rep < 2; rep++ {
 		p := l.newPipe(0, scratch)
